@@ -92,7 +92,15 @@ def analyse_game(prop, sc, rewards, acc, thresholds=()):
             first = Rn.solve(sc.game(rewards), prune, cpu_s=10.0 if slow else 1.0, confirm=False)
             if first.kind == "timeout":
                 pre = J.explain_no_return(sc, rewards, prune)
-                if pre is not None:
+                if pre is not None and pre[0].startswith("SKIP") and slow:
+                    # "very many sweeps needed" is an expectation, not an observation: the run gets a much longer alarm once, and if it
+                    # comes back (with a result or an exception) it is judged like any other run
+                    again = Rn.solve(sc.game(rewards), prune, cpu_s=45.0, confirm=False)
+                    if again.kind != "timeout":
+                        first, pre = again, None
+                if first.kind != "timeout":
+                    pass
+                elif pre is not None:
                     acc["executions"] += 1
                     _count(acc, "outcomes", "no-return-explained")
                     if pre[0].startswith("SKIP"):
@@ -100,7 +108,8 @@ def analyse_game(prop, sc, rewards, acc, thresholds=()):
                     else:
                         add_known([pre], {"prune": prune})
                     continue
-                first = Rn.solve(sc.game(rewards), prune, cpu_s=30.0 if slow else 1.0, max_lines=60_000_000 if slow else 1_000_000)
+                else:
+                    first = Rn.solve(sc.game(rewards), prune, cpu_s=30.0 if slow else 1.0, max_lines=60_000_000 if slow else 1_000_000)
             gr = J.GameRun(sc, rewards, prune, confirm=True, outcome=first)
         elif stopping:
             # termination on stopping games is C06's verdict; the other properties only need the result, so a run that
@@ -155,18 +164,23 @@ def analyse_game(prop, sc, rewards, acc, thresholds=()):
             if runs[True].ok and runs[False].ok and runs[True].out.result[3] != runs[False].out.result[3]:
                 add([("C01/modes-differ", runs[True].out.result[3], runs[False].out.result[3],
                       "probabilities differ between pruning on and off")], {"prune": "both"})
-            for thr in thresholds:
-                so = Rn.solve_reach_seam(sc.game(rewards), False, threshold=thr)
+            for thr, by_attr in [(t, b) for t in thresholds for b in (False, True)]:
+                Rn.THRESHOLD_BY_ATTRIBUTE = by_attr
+                try:
+                    so = Rn.solve_reach_seam(sc.game(rewards), False, threshold=thr)
+                finally:
+                    Rn.THRESHOLD_BY_ATTRIBUTE = False
+                how = "Solver(...).threshold = %g" % thr if by_attr else "Solver(threshold=%g)" % thr
                 acc["executions"] += 1
                 if so.kind != "ok":
                     add([("C01/no-probabilities", so.error, "a probability vector",
-                          "threshold %g: the reachability seam produced no probabilities: %s" % (thr, so.error))],
-                        {"seam": True, "threshold": thr})
+                          "%s: the reachability seam produced no probabilities: %s" % (how, so.error))],
+                        {"seam": True, "threshold": thr, "by_attribute": by_attr})
                     continue
-                f, ratio = J.judge_probs(sc, so.result[0], threshold=thr, where="Solver(threshold=%g)" % thr)
+                f, ratio = J.judge_probs(sc, so.result[0], threshold=thr, where=how)
                 acc["judged"] += 1
                 acc["max_ratio"] = max(acc["max_ratio"], ratio)
-                add(f, {"seam": True, "threshold": thr})
+                add(f, {"seam": True, "threshold": thr, "by_attribute": by_attr})
             fin = set(sc.finals)
             T = set(s for s in range(sc.n) if sc.vstar[s] > 0 and s not in fin)
             if any(0 < sc.vstar[s] < 1 and _on_cycle_in(sc.tl, T, s) for s in T):
@@ -374,6 +388,22 @@ def work(shard):
         Rn.DEBUG_LOG = False
 
 
+def _analyse_aliased(prop, sc, rewards, acc, name):
+    """the same game with its value-equal rows given as one shared list object (a legal way to write a description); judged like any other"""
+    sc.alias = True
+    try:
+        before = len(acc["violations"])
+        f, k = analyse_game(prop, sc, rewards, acc, ())
+        acc["aliased_row_games"] = acc.get("aliased_row_games", 0) + 1
+        if f or k:
+            record(prop, sc, rewards, f, k, acc, name)
+            for c in acc["violations"][before:]:
+                c.setdefault("config", {})["alias_rows"] = True
+                c["explanation"] = "%s [value-equal rows of different states passed as one shared list object]" % c.get("explanation")
+    finally:
+        sc.alias = False
+
+
 def _pair_second(prop, game, first):
     """in a process that has just solved `first`: judge `game` like any other game of the sweep"""
     acc = _new_acc()
@@ -432,6 +462,8 @@ def _work(shard, kind, prop, acc):
                 first = False
                 if f or k:
                     record(prop, sc, rewards, f, k, acc, shard["universe"])
+                if shard.get("alias_rows") and sc.has_equal_rows():
+                    _analyse_aliased(prop, sc, rewards, acc, shard["universe"])
             if len(acc["samples"]) < 2 and acc["structures"] % 97 == 1:
                 acc["samples"].append({"universe": shard["universe"], "game": sc.game(rewards)})
             if acc.get("n_violations", 0) >= vcap or acc.get("stopping_timeouts", 0) >= STOP_TIMEOUT_CAP:
@@ -449,6 +481,8 @@ def _work(shard, kind, prop, acc):
             f, k = analyse_game(prop, sc, rewards, acc, ())
             if f or k:
                 record(prop, sc, rewards, f, k, acc, shard["family"])
+            if shard.get("alias_rows") and sc.has_equal_rows():
+                _analyse_aliased(prop, sc, rewards, acc, shard["family"])
             if len(acc["samples"]) < 1 and acc["structures"] % 211 == 1:
                 acc["samples"].append({"universe": shard["family"], "game": game})
             if acc.get("n_violations", 0) >= vcap or acc.get("stopping_timeouts", 0) >= STOP_TIMEOUT_CAP:
@@ -480,6 +514,8 @@ def _game_family(name, shard):
             _FAMILIES[key] = U.U_RB_games()
         elif name == "U-PAIR":
             _FAMILIES[key] = U.U_PAIR_games()
+        elif name in ("U-WIDE", "U-BIG", "U-MF"):
+            _FAMILIES[key] = {"U-WIDE": U.U_WIDE_games, "U-BIG": U.U_BIG_games, "U-MF": U.U_MF_games}[name]()
         elif name == "U-SC":
             _FAMILIES[key] = U.U_SC_games((16, 32, 50, 64, 100, 128, 256) if shard.get("all_sizes") else (256,))
         elif name in ("U-E", "U-C", "U-L", "U-R", "U-P2", "U-N", "U-W", "U-Z", "U-G", "U-K"):
@@ -508,7 +544,7 @@ def family_size(name, **kw):
 
 # -------------------------------------------------------------------------------------------------- plans
 
-def universe_shards(prop, name, jobs, rewards="ones", frac=None, seed=0, thresholds=(), stopping_only=False, core=None, stride=None, debug_log=False):
+def universe_shards(prop, name, jobs, rewards="ones", frac=None, seed=0, thresholds=(), stopping_only=False, core=None, stride=None, debug_log=False, alias_rows=False):
     """frac = None: the whole universe; frac = k: the 1/k slice (contiguous block) selected by seed;
     stride = s: the arithmetic progression of indices offset, offset + s, ... with offset = 7919 * seed mod s (every state's row varies)."""
     Un = universe(name)
@@ -522,7 +558,7 @@ def universe_shards(prop, name, jobs, rewards="ones", frac=None, seed=0, thresho
             planned = 0 if first >= b else (b - 1 - first) // stride + 1
             total += planned
             shards.append({"kind": "universe", "prop": prop, "universe": name, "lo": a, "hi": b, "stride": stride, "offset": offset, "planned": planned,
-                           "rewards": rewards, "thresholds": tuple(thresholds), "stopping_only": stopping_only, "debug_log": debug_log})
+                           "rewards": rewards, "thresholds": tuple(thresholds), "stopping_only": stopping_only, "debug_log": debug_log, "alias_rows": alias_rows})
         return shards, {"universe": name, "description": Un.description, "size": Un.size, "explored_structures": total,
                         "fraction": "indices %d + k*%d (offset selected by VERIF_SEED)" % (offset, stride), "rewards": rewards, "thresholds": list(thresholds)}
     if frac:
@@ -532,7 +568,7 @@ def universe_shards(prop, name, jobs, rewards="ones", frac=None, seed=0, thresho
     shards = []
     for a, b in par.ranges(hi - lo, jobs * 6):
         shards.append({"kind": "universe", "prop": prop, "universe": name, "lo": lo + a, "hi": lo + b,
-                       "rewards": rewards, "thresholds": tuple(thresholds), "stopping_only": stopping_only, "debug_log": debug_log})
+                       "rewards": rewards, "thresholds": tuple(thresholds), "stopping_only": stopping_only, "debug_log": debug_log, "alias_rows": alias_rows})
     return shards, {"universe": name, "description": Un.description, "size": Un.size,
                     "explored_indices": [lo, hi], "fraction": "1/%d (slice %d selected by VERIF_SEED)" % (frac, seed % frac) if frac else "all",
                     "rewards": rewards, "thresholds": list(thresholds)}
@@ -576,7 +612,7 @@ def run_plan(ctx, prop, parts, rule, assumptions, kf_what=None, vacuity=None):
     truncated = bool(tot.get("truncated"))
     planned = sum(sh.get("planned", sh["hi"] - sh["lo"]) for sh in shards)
     if not truncated and tot["structures"] != planned:
-        raise par.HarnessError("%s: %d structures explored, %d planned" % (prop, tot["structures"], planned))
+        raise par.GuardError("%s: %d structures explored, %d planned" % (prop, tot["structures"], planned))
     if vacuity and not tot.get("violations"):
         vacuity(tot)
     known = tot.get("known", {})
@@ -591,7 +627,7 @@ def run_plan(ctx, prop, parts, rule, assumptions, kf_what=None, vacuity=None):
            "max_error_over_tolerance": round(tot.get("max_ratio", 0.0), 4),
            "stopping_games_without_result_within_alarm": tot.get("stopping_timeouts", 0),
            "exhaustive": not truncated, "samples": tot.get("samples", [])[:6]}
-    for k in ("exact_states_judged", "exact_states_out_of_scope", "skipped_structures", "too_slow_to_judge"):
+    for k in ("exact_states_judged", "exact_states_out_of_scope", "skipped_structures", "too_slow_to_judge", "aliased_row_games", "ordered_pairs"):
         if k in tot:
             cov[k] = tot[k]
     if tot.get("stopping_timeouts", 0):
@@ -647,6 +683,7 @@ def _replay_alone_(prop, case):
     g = case["input"]
     tl = [[tuple(t) for t in row] for row in g["transition_list"]]
     sc = J.SCache(g["players"], tl, g["final_states"])
+    sc.alias = bool((case.get("config") or {}).get("alias_rows"))
     acc = _new_acc()
     thr = case.get("config", {}).get("threshold")
     f, k = analyse_game(prop, sc, g["rewards"], acc, (thr,) if thr else ())
